@@ -69,7 +69,8 @@ register_descriptor! {
     ptr: |args: FunctionArgs| -> MResult<Box<dyn MechFunction>> {
       match args {
         FunctionArgs::Nullary(out) => {
-          let out: Ref<Value> = unsafe { out.as_unchecked() }.clone();
+          // the register holds the converted value itself (a number, a bool, …), not a reference to a `Value`
+          let out: Ref<Value> = Ref::new(out);
           Ok(Box::new(ConvertSEmpty { out }))
         },
         _ => Err(MechError::new(
